@@ -54,6 +54,22 @@ func MockGenesis(mode SporkMode) *genesis.GenesisConfig {
 	return &c
 }
 
+// TightCaps returns a copy of the config in which the maximum supply of ZNN and QSR lies only `room`
+// base units above the genesis supply: the contracts' own mints (rewards, liquidity, bridge) soon do
+// not fit under the cap any more.
+func TightCaps(c *genesis.GenesisConfig, room int64) *genesis.GenesisConfig {
+	out := *c
+	tc := &genesis.TokenContractConfig{}
+	for _, t := range c.TokenConfig.Tokens {
+		cp := *t
+		cp.TotalSupply = new(big.Int).Set(t.TotalSupply)
+		cp.MaxSupply = new(big.Int).Add(t.TotalSupply, big.NewInt(room))
+		tc.Tokens = append(tc.Tokens, &cp)
+	}
+	out.TokenConfig = tc
+	return &out
+}
+
 // ActivateSpork sends the activation call for a declared spork from the spork key.
 func (gn *Gen) ActivateSpork(n *simnode.Node, id types.Hash, from types.Address) *nom.AccountBlock {
 	return gn.do(n, "spork.ActivateSpork", from, types.SporkContract, types.ZnnTokenStandard, nil, definition.ABISpork.PackMethodPanic(definition.SporkActivateMethodName, id))
